@@ -8,6 +8,10 @@ CHECKS = {
    text="All event sequences up to the bound (14-point insert alphabet, Flush(t1), FlushAll; schemas {t1} and {t1,t2,view}) are executed on the real database with exact quiescence after each event; after every event, on every distinct storage state, every table's native query must equal a reference model that recomputes each aggregate from the raw points. Exhaustive within the bound, not beyond it.",
    note="Trusted: the reference model (plain Go, no zenodb code), exact quiescence via hook counters, virtual clock. Alphabet and sequence length are the bound. Known finding D9 (array tails applied twice) is matched only when the result equals the tail-doubled model.",
    ref="§3 C01"),
+ "C05": dict(cat="exploration", tech="exhaustive small-scope enumeration of expression trees / update splits / series alignments",
+   text="Pure functions, so the bounded space is enumerated completely: every valid expression tree up to the depth bound, every update sequence up to length 3 over a 4-value alphabet, every split into 2 and 3 parts (merge == single state, commutative, associative, operands untouched); and for a 6-period window every pair of series masks × truncation instants for Merge, every mask × (asOf, until) pair for Truncate, every insertion order for UpdateValue, against a map[period]value reference.",
+   note="PERCENTILE values are compared with single-state accumulation by the expr package itself (HDR histogram arithmetic trusted). Periods older than truncateBefore are unconstrained. SubMerge is exercised through C06/C07 queries rather than here.",
+   ref="§3 C05"),
 }
 
 NOT_YET = {}
